@@ -218,7 +218,7 @@ PLACEHOLDERS = ("|||START|||", "|||END|||", "|||DUMMY|||", "DUMMY_BREAK",
 _LOOPNAME = re.compile(r'LOOP_\d+')
 
 
-def strict_parse(text, allow_no_group=False):
+def strict_parse(text, allow_no_group=False, input_types=()):
     """returns (ast, info) or raises Bad(reason)"""
     # blank lines, trailing blanks and ' comments are legal PlantUML and carry
     # no structure
@@ -317,6 +317,10 @@ def strict_parse(text, allow_no_group=False):
     if pos != len(body):
         raise Bad(f"unbalanced: stray '{body[pos]}'")
     for nm in info["events"]:
+        # a name that is an event type of the input is not a placeholder,
+        # whatever it looks like
+        if nm in input_types:
+            continue
         if any(p in nm for p in PLACEHOLDERS) or _LOOPNAME.fullmatch(nm):
             raise Bad(f"placeholder leaked: {nm}")
     return ast, info
